@@ -55,5 +55,22 @@ def fill(register, pending):
              'at steady state (see DESIGN.md 1.1); schedules are sampled, not enumerated',
              'deterministic simulation: baton-passing real threads under a seeded scheduler with lock seams and schedule-tape replay',
              'DESIGN.md section 4 (C17)', 'checks/c17_threads.py')
-    for pid in ('C11', 'C13', 'C18'):
+    register('C13', 'exploration',
+             'seeded block programs (thorough: plus every well-nested program of <= 3 blocks x 6 enter symbols x exception position) '
+             'of dict_insertion_ordered blocks with nested / sibling / exception / non-LIFO-across-namespaces exits, against a '
+             'saved-flag model; all namespaces observed after every step through engine flags, the flatten family, treespec '
+             'constructors, registry lookup, one-level flatten, iterators that outlive their block and a generated tree\'s round trip',
+             'single task (the mode switch is documented as not thread-safe); model: per-namespace flag with saved-value restore',
+             'deterministic simulation: seeded stateful block/exception histories against an executable mode-stack model',
+             'DESIGN.md section 4 (C13)', 'checks/c13_dictmode.py')
+    register('C18', 'exploration',
+             'seeded cache histories over a per-run class universe (18 shapes + real struct sequences): create / query / drop / gc / '
+             'churn beyond a shrunken cache cap / cap changes; after every step engine answers = cache-free twin answers for every '
+             'live class on class and instance forms incl. exception type, cache entries belong to live types and hold fresh '
+             'answers, freed classes are evicted before their address can be reused; plus sort-twin and one-level-twin comparisons',
+             'address reuse is provoked and counted, not controlled (hundreds of thousands of reuses per quick run); cap knob only in '
+             'the hook build; thorough runs also fill the default 4096-slot cache',
+             'deterministic simulation: seeded create/free/gc histories with a cache-capacity knob and twin-implementation oracle',
+             'DESIGN.md section 4 (C18)', 'checks/c18_cache.py')
+    for pid in ('C11',):
         pending[pid] = 'simulation check designed (DESIGN.md section 4) but not yet built at this commit; not claimed until its engine is committed'
